@@ -50,7 +50,7 @@ def jobs(tier, seed):
     J.append(Job('canary:assoc-order', 'harness.c09', 'h_shapes', {'family': 'op204', 'phases': 1}, timeout=300, max_cex=1,
                  mutate="pybufrkit.utils::            data_all_subsets[-1].insert(-1, value)-->>            data_all_subsets[-1].append(value)"))
     J.append(Job('canary:string-bound', 'harness.c09', 'h_strings', {'nbytes': 3}, timeout=600, max_cex=1,
-                 mutate="pybufrkit.utils::            idxval = line.rfind(string_left_bound, 0, len(line) - 1)-->>            idxval = line.find(string_left_bound, 0, len(line) - 1)"))
+                 mutate="pybufrkit.utils::            idxval = line.rfind(string_left_bound, 0, len(line) - 1)-->>            idxval = line.rfind(string_left_bound)"))
     J.append(Job('canary:virtual-attr', 'harness.c09', 'h_shapes', {'family': 'qa222', 'phases': 1}, timeout=300, max_cex=1,
                  mutate="pybufrkit.utils::            if 'virtual' not in attr:-->>            if True:"))
     return J
